@@ -305,6 +305,21 @@ CORPUS = [
     [["set", "/v/a", [10, 5, 6]], ["cf", "/v/a", True, 0], ["set", "/v/a", [11, 5, 6]], ["cf", "/v/a", True, 0],
      ["up", 1, b"URI:CHK:new".hex()], ["up", 0, b"URI:CHK:old".hex()], ["cf", "/v/a", True, 0], ["set", "/v/a", [10, 5, 6]],
      ["cf", "/v/a", True, 0], ["dump"]],
+    # a touched file is uploaded again and yields a cap the database already knows, after other rows were inserted:
+    # the known cap must keep its own fileid (not the rowid of whatever was inserted last)   [seeded change C42-b]
+    [["set", "/v/a", [10, 5, 6]], ["set", "/v/b", [20, 5, 6]], ["cf", "/v/a", True, 0], ["up", 0, b"URI:CHK:aaa".hex()],
+     ["cf", "/v/b", True, 0], ["up", 1, b"URI:CHK:bbb".hex()], ["set", "/v/a", [10, 8, 9]], ["cf", "/v/a", True, 0],
+     ["up", 2, b"URI:CHK:aaa".hex()], ["cf", "/v/a", True, 0], ["cf", "/v/b", True, 0], ["dump"],
+     ["cd", [["a", b"URI:CHK:aaa".hex()]], 0], ["dc", 0, b"URI:DIR2-CHK:d1".hex()], ["set", "/v/b", [20, 8, 9]],
+     ["cf", "/v/b", True, 0], ["up", 5, b"URI:CHK:bbb".hex()], ["cf", "/v/b", True, 0], ["cf", "/v/a", True, 0], ["dump"]],
+    # timestamps one second off, same size: not "the same" (no tolerance window)   [seeded change C42-a]
+    [["set", "/v/a", [10, 100, 100]], ["cf", "/v/a", True, 0], ["up", 0, b"URI:CHK:aaa".hex()],
+     ["write", "/v/a", [10, 101, 100], "modify-same-size"], ["cf", "/v/a", True, 0], ["up", 1, b"URI:CHK:aab".hex()],
+     ["write", "/v/a", [10, 101, 101], "modify-same-size"], ["cf", "/v/a", True, 0], ["up", 2, b"URI:CHK:aac".hex()],
+     ["write", "/v/a", [10, 100, 100], "modify-same-size"], ["cf", "/v/a", True, 0], ["dump"]],
+    # the file is written while its upload is in flight, then an ordinary run   [seeded change C42-c]
+    [["set", "/v/a", [10, 100, 100]], ["cf", "/v/a", True, 0], ["write", "/v/a", [14, 107, 107], "append"],
+     ["up", 0, b"URI:CHK:old-bytes".hex()], ["cf", "/v/a", True, 0], ["dump"]],
     # directory: permuted dict reuses, framing-sensitive near misses do not
     [["cd", [["a", b"bc".hex()], ["b", b"c".hex()]], 0], ["dc", 0, b"URI:DIR2-CHK:d1".hex()],
      ["cd", [["b", b"c".hex()], ["a", b"bc".hex()]], 0], ["cd", [["ab", b"c".hex()], ["b", b"c".hex()]], 0],
@@ -629,7 +644,7 @@ def run(ctx):
     else:
         tools = list(TOOL_VARIANTS)
         hists += CORPUS
-        for _ in range(ctx.budget(250, 6000)):
+        for _ in range(0 if os.environ.get("VERIF_CORPUS_ONLY") else ctx.budget(250, 6000)):
             hists.append(gen_history(ctx.rng, ctx.rng.choice([8, 20, 40, 90])))
     cases, impl, lines = [], [], []
     try:
